@@ -35,7 +35,8 @@ def gen():
     for fn_, conv in (("unescape", "Ok(data.to_owned())"), ("unescape_cow", "Ok(Cow::Borrowed(data))")):
         b = norm_ws(F.fn_body(ts, fn_, rel))
         tail = "unescape_slow(data)" if fn_ == "unescape" else "unescape_slow(data).map(|s|Cow::Owned(s))"
-        if b != "check_str_len(data)?;if!UNICODE_LITERAL.is_match(data){%s}else{%s}" % (conv, tail):
+        # F.strip_comments brings `if !c {A} else {B}` to `if c {B} else {A}`
+        if not F.same_shape(F.fn_body(ts, fn_, rel), "check_str_len(data)?;ifUNICODE_LITERAL.is_match(data){%s}else{%s}" % (tail, conv)):
             raise F.FactError("%s changed shape: %r" % (fn_, b))
     b = norm_ws(F.fn_body(ts, "unescape_slow", rel))
     exp = ("letmutresult=String::with_capacity(original.len());letmutstart=0;forcinUNICODE_LITERAL.captures_iter(original){"
@@ -44,7 +45,7 @@ def gen():
            "None=>returnErr(BuildFailure::InvalidCharLiteral(braces.as_str().to_owned())),},"
            "Err(_)=>returnErr(BuildFailure::InvalidCharLiteral(braces.as_str().to_owned())),}start=whole.end();}"
            "result.push_str(&original[start..]);Ok(result)")
-    if b != exp:
+    if not F.same_shape(F.fn_body(ts, "unescape_slow", rel), exp):
         raise F.FactError("unescape_slow changed shape: %r" % b)
     b = norm_ws(F.fn_body(ts, "check_str_len", rel))
     m = re.fullmatch(r"ifdata\.len\(\)(>=|>)MAX_DIC_STRING_LEN\{Err\(BuildFailure::InvalidSize\{expected:MAX_DIC_STRING_LEN,actual:data\.len\(\),\}\)\}else\{Ok\(\(\)\)\}", b)
@@ -59,21 +60,21 @@ def gen():
     # --- numbers and ids
     for fn_, ty, err in (("parse_i16", "i16", "InvalidI16Literal"), ("parse_u32", "u32", "InvalidU32Literal")):
         b = norm_ws(F.fn_body(ts, fn_, rel))
-        if b != "match%s::from_str(data){Ok(v)=>Ok(v),Err(_)=>Err(BuildFailure::%s(data.to_owned())),}" % (ty, err):
+        if not F.same_shape(F.fn_body(ts, fn_, rel), "match%s::from_str(data){Ok(v)=>Ok(v),Err(_)=>Err(BuildFailure::%s(data.to_owned())),}" % (ty, err)):
             raise F.FactError("%s changed shape: %r" % (fn_, b))
     b = norm_ws(F.fn_body(ts, "parse_dic_form", rel))
-    if b != 'ifdata=="*"{Ok(WordId::INVALID)}else{parse_wordid(data)}':
+    if not F.same_shape(F.fn_body(ts, "parse_dic_form", rel), 'ifdata=="*"{Ok(WordId::INVALID)}else{parse_wordid(data)}'):
         raise F.FactError("parse_dic_form changed shape: %r" % b)
     b = norm_ws(F.fn_body(ts, "parse_wordid", rel))
-    if b != 'ifdata.starts_with("U"){letwid=parse_wordid_raw(&data[1..]);wid.map(|w|WordId::new(1,w.word()))}else{parse_wordid_raw(data)}':
+    if not F.same_shape(F.fn_body(ts, "parse_wordid", rel), 'ifdata.starts_with("U"){letwid=parse_wordid_raw(&data[1..]);wid.map(|w|WordId::new(1,w.word()))}else{parse_wordid_raw(data)}'):
         raise F.FactError("parse_wordid changed shape: %r" % b)
     b = norm_ws(F.fn_body(ts, "parse_wordid_raw", rel))
-    if b != ("matchu32::from_str(data){Ok(v)=>matchWordId::checked(0,v){Ok(id)=>Ok(id),Err(_)=>Err(BuildFailure::InvalidWordId(data.to_owned())),},"
-             "Err(_)=>Err(BuildFailure::InvalidWordId(data.to_owned())),}"):
+    if not F.same_shape(F.fn_body(ts, "parse_wordid_raw", rel), ("matchu32::from_str(data){Ok(v)=>matchWordId::checked(0,v){Ok(id)=>Ok(id),Err(_)=>Err(BuildFailure::InvalidWordId(data.to_owned())),},"
+             "Err(_)=>Err(BuildFailure::InvalidWordId(data.to_owned())),}")):
         raise F.FactError("parse_wordid_raw changed shape: %r" % b)
     for fn_, item in (("parse_wordid_list", "parse_wordid"), ("parse_u32_list", "parse_u32")):
         b = norm_ws(F.fn_body(ts, fn_, rel))
-        if b != 'ifdata.is_empty()||data=="*"{returnOk(Vec::new());}parse_slash_list(data,%s)' % item:
+        if not F.same_shape(F.fn_body(ts, fn_, rel), 'ifdata.is_empty()||data=="*"{returnOk(Vec::new());}parse_slash_list(data,%s)' % item):
             raise F.FactError("%s changed shape: %r" % (fn_, b))
     b = norm_ws(F.fn_body(ts, "parse_slash_list", rel))
     m = re.fullmatch(r'letmutresult=Vec::with_capacity\(4\);forpartindata\.split\("/"\)\{result\.push\(f\(part\)\?\);\}ifresult\.len\(\)(>=|>)MAX_ARRAY_LEN\{'
@@ -82,7 +83,7 @@ def gen():
         raise F.FactError("parse_slash_list changed shape: %r" % b)
     out.append("(* parse_slash_list: Err iff result.len() CMP MAX_ARRAY_LEN, after every item parsed *)\nDefinition list_len_cmp : cmp := %s.\n" % CMP[m.group(1)])
     b = norm_ws(F.fn_body(ts, "none_if_equal", rel))
-    if b != "ifsurface==data{None}else{matchdata{Cow::Borrowed(x)=>Some(x.to_owned()),Cow::Owned(x)=>Some(x),}}":
+    if not F.same_shape(F.fn_body(ts, "none_if_equal", rel), "ifsurface==data{None}else{matchdata{Cow::Borrowed(x)=>Some(x.to_owned()),Cow::Owned(x)=>Some(x),}}"):
         raise F.FactError("none_if_equal changed shape: %r" % b)
     # --- parse_mode: literal -> mode
     b = F.fn_body(ts, "parse_mode", rel)
@@ -100,12 +101,12 @@ def gen():
     rel2 = "sudachi/src/dic/build/lexicon.rs"
     t2 = F.strip_comments(F.src(rel2))
     b = F.fn_body(t2, "parse_record", rel2)
-    cols = re.findall(r"let\s+(\(?[a-z0-9_, ]+\)?)\s*=\s*rec\.(get|get_or_default)\(\s*(\d+)\s*,\s*\"[^\"]*\"\s*,\s*([^;]+?)\)\?;", b)
+    cols = re.findall(r"let\s+(\(?[a-z0-9_,\s]+?\)?)\s*=\s*rec\.(get|get_or_default)\(\s*(\d+)\s*,\s*\"[^\"]*\"\s*,\s*([^;]+?)\)\?;", b)
     rows = []
     for var, how, idx, parser in cols:
         parser = re.sub(r"\s+", "", parser)
-        parser = {"|s|self.parse_splits(s)": "parse_splits"}.get(parser, parser)
-        rows.append((re.sub(r"[() ]", "", var).split(",")[0], int(idx), parser, how == "get_or_default"))
+        parser = re.sub(r"^\|(\w+)\|self\.parse_splits\(\1\)$", "parse_splits", parser)
+        rows.append((re.sub(r"[()\s]", "", var).split(",")[0], int(idx), parser, how == "get_or_default"))
     if len(rows) != 19:
         raise F.FactError("parse_record: expected 19 rec.get(..) lines, found %d" % len(rows))
     out.append("(* parse_record: variable, column, parser, optional column *)\n")
@@ -126,7 +127,7 @@ def gen():
         raise F.FactError("parse_record: construction of RawLexiconEntry changed shape")
     # --- parse_splits / parse_split
     b = norm_ws(F.fn_body(t2, "parse_splits", rel2))
-    if not b.startswith('ifdata.is_empty()||data=="*"{returnOk((Vec::new(),0));}parse_slash_list(data,|s|self.parse_split(s))'):
+    if not re.match(r'ifdata\.is_empty\(\)\|\|data=="\*"\{returnOk\(\(Vec::new\(\),0\)\);\}parse_slash_list\(data,\|(\w+)\|self\.parse_split\(\1\)\)', b):
         raise F.FactError("parse_splits changed shape: %r" % b)
     b = F.fn_body(t2, "parse_split", rel2)
     nbs = norm_ws(b)
@@ -156,12 +157,12 @@ def gen():
            "letmutwritten_bytes=2;letmutctx=DicCompilationCtx::default();ctx.set_filename(\"<pos-table>\".to_owned());"
            "for(row,pos_id)inself.pos.iter(){if(*pos_idasusize)<self.start_pos{continue;}forfieldinrow.fields(){"
            "ctx.apply(||u16w.write(w,field).map(|written|written_bytes+=written))?;}ctx.add_line(1);}Ok(written_bytes)")
-    if b != exp:
+    if not F.same_shape(F.fn_body(t2, "write_pos_table", rel2), exp):
         raise F.FactError("write_pos_table changed shape: %r" % b)
     rel3 = "sudachi/src/dic/grammar.rs"
     t3 = F.strip_comments(F.src(rel3))
     b = norm_ws(F.fn_body(t3, "pos_list_parser", rel3))
-    if b != "let(rest,pos_size)=le_u16(input)?;nom::multi::count(nom::multi::count(utf16_string_parser,POS_DEPTH),pos_sizeasusize,)(rest)":
+    if not F.same_shape(F.fn_body(t3, "pos_list_parser", rel3), "let(rest,pos_size)=le_u16(input)?;nom::multi::count(nom::multi::count(utf16_string_parser,POS_DEPTH),pos_sizeasusize,)(rest)"):
         raise F.FactError("pos_list_parser changed shape: %r" % b)
     out.append("Definition POS_DEPTH : N := %s.\n" % F.coq_int(F.find_const("sudachi/src/dic/mod.rs", "POS_DEPTH")))
     return "".join(out)
